@@ -7,9 +7,11 @@
 package main
 
 import (
+	"bytes"
 	"fmt"
 	"go/ast"
 	"go/parser"
+	"go/printer"
 	"go/token"
 	"io/ioutil"
 	"os"
@@ -147,6 +149,142 @@ func collectPeekers() [][2]string {
 	return out
 }
 
+// ---- what the hand-written coders do with the bytes they decoded ------------------------
+// For every DecodeRLP / EncodeRLP method of the packages that own wire types: the
+// calls it makes (and index / slice expressions), and the same for the helpers of its
+// own package it calls (one level).  A helper that indexes, slices or converts by
+// length (hexutil.CompactBytesToUint64, common.BytesToHash ...) appearing inside a
+// decoder is a new place where attacker-controlled field data is interpreted.
+var coderDirs = []string{"core/types", "core/state", "consensus/ucon", "staking", "local"}
+
+func exprString(fset *token.FileSet, e ast.Expr) string {
+	var buf bytes.Buffer
+	printer.Fprint(&buf, fset, e)
+	return strings.Join(strings.Fields(buf.String()), "")
+}
+
+func callsOf(fset *token.FileSet, body *ast.BlockStmt) (out []string, bare []string) {
+	seen := map[string]bool{}
+	add := func(s string) {
+		if !seen[s] {
+			seen[s] = true
+			out = append(out, s)
+		}
+	}
+	ast.Inspect(body, func(x ast.Node) bool {
+		switch n := x.(type) {
+		case *ast.CallExpr:
+			switch f := n.Fun.(type) {
+			case *ast.Ident:
+				add(f.Name)
+				bare = append(bare, f.Name)
+			case *ast.SelectorExpr:
+				add(exprString(fset, f))
+				bare = append(bare, f.Sel.Name)
+			case *ast.ArrayType, *ast.ParenExpr, *ast.StarExpr, *ast.MapType:
+				add("<conversion>")
+			default:
+				add("<call>")
+			}
+		case *ast.IndexExpr:
+			add("<index>")
+		case *ast.SliceExpr:
+			add("<slice>")
+		}
+		return true
+	})
+	sort.Strings(out)
+	return
+}
+
+func collectCoderCalls() [][2]string {
+	var out [][2]string
+	root := repoDir()
+	for _, d := range coderDirs {
+		files, _ := ioutil.ReadDir(filepath.Join(root, d))
+		fset := token.NewFileSet()
+		funcs := map[string]*ast.FuncDecl{} // helpers of the package by bare name
+		var coders []*ast.FuncDecl
+		for _, fi := range files {
+			n := fi.Name()
+			if fi.IsDir() || !strings.HasSuffix(n, ".go") || strings.HasSuffix(n, "_test.go") || strings.HasPrefix(n, "zz_verif") {
+				continue
+			}
+			f, err := parser.ParseFile(fset, filepath.Join(root, d, n), nil, 0)
+			if err != nil {
+				fmt.Println("cannot parse", d, n, err)
+				os.Exit(3)
+			}
+			for _, decl := range f.Decls {
+				fd, ok := decl.(*ast.FuncDecl)
+				if !ok || fd.Body == nil {
+					continue
+				}
+				if fd.Name.Name == "DecodeRLP" || fd.Name.Name == "EncodeRLP" {
+					coders = append(coders, fd)
+				} else {
+					funcs[fd.Name.Name] = fd
+				}
+			}
+		}
+		for _, fd := range coders {
+			name := d + ":" + recvName(fd)
+			calls, bare := callsOf(fset, fd.Body)
+			for _, c := range calls {
+				out = append(out, [2]string{name, c})
+			}
+			done := map[string]bool{}
+			for _, b := range bare {
+				if h, ok := funcs[b]; ok && !done[b] {
+					done[b] = true
+					hc, _ := callsOf(fset, h.Body)
+					for _, c := range hc {
+						out = append(out, [2]string{name + ">" + recvName(h), c})
+					}
+				}
+			}
+		}
+	}
+	sort.Slice(out, func(i, j int) bool {
+		if out[i][0] != out[j][0] {
+			return out[i][0] < out[j][0]
+		}
+		return out[i][1] < out[j][1]
+	})
+	return out
+}
+
+// coders whose inventory differs from the pinned one (coder_calls_golden.go): the
+// types they belong to get a tenfold budget in gen
+func changedCoders() map[string]bool {
+	cur := map[string]bool{}
+	for _, p := range collectCoderCalls() {
+		cur[p[0]+"\t"+p[1]] = true
+	}
+	gold := map[string]bool{}
+	for _, l := range strings.Split(strings.TrimSpace(coderCallsGolden), "\n") {
+		gold[l] = true
+	}
+	out := map[string]bool{}
+	mark := func(k string) {
+		m := strings.SplitN(k, "\t", 2)[0]       // dir:Type.Method>helper
+		m = strings.SplitN(m, ">", 2)[0]
+		m = m[strings.Index(m, ":")+1:]
+		out[strings.SplitN(m, ".", 2)[0]] = true // the Go type name
+	}
+	for k := range cur {
+		if !gold[k] {
+			mark(k)
+		}
+	}
+	for k := range gold {
+		if !cur[k] {
+			mark(k)
+		}
+	}
+	return out
+}
+
 func callSitesCmd(out string) {
 	sites := collectCallSites()
 	var sb strings.Builder
@@ -169,6 +307,15 @@ func callSitesCmd(out string) {
 			sb.WriteString("; ")
 		}
 		sb.WriteString(fmt.Sprintf("(%q, %q)", p[0], p[1]))
+	}
+	sb.WriteString("].\n")
+	sb.WriteString("(* (hand-written coder [> helper of its package], what it calls): see callsites.go *)\n")
+	sb.WriteString("Definition coder_calls : list (string * string) := [\n")
+	for i, p := range collectCoderCalls() {
+		if i > 0 {
+			sb.WriteString(";\n")
+		}
+		sb.WriteString(fmt.Sprintf("  (%q, %q)", p[0], p[1]))
 	}
 	sb.WriteString("].\n")
 	vf.WriteIfChanged(out, sb.String())
